@@ -492,6 +492,10 @@ def universe(tier):
     for x in [1, -1, 0.5, -0.5, 2, 255, 2 ** 31 - 1, 2 ** 31, 2 ** 31 + 1, -2 ** 31, -2 ** 31 - 1, -2 ** 31 + 1,
               2 ** 32, 2 ** 53 - 1, 2 ** 53 + 2, -2 ** 53, 2 ** 63, 1e308, 5e-324]:
         add(n(x))
+    # where the construction routes change their encoding of an integer (marshal: one byte up to 200, two bytes within
+    # -8192..8191, then 32 bits): a value must come back as itself on both sides of each step
+    for x in [200, 201, 8191, 8192, -8192, -8193]:
+        add(n(x))
     add(n(2 ** 53), [('plus-one-rounds', '(+ 9007199254740992 1)'), ('pow', '(math/pow 2 53)')])
     add(n(float('inf')))
     add(n(float('-inf')))
